@@ -7,6 +7,7 @@ mod c08;
 mod vals;
 mod c09;
 mod c10;
+mod c13;
 mod c17;
 mod gen;
 
@@ -23,6 +24,7 @@ fn main() {
         "c08" => c08::main(args),
         "c09" => c09::main(args),
         "c10" => c10::main(args),
+        "c13" => c13::main(args),
         "c17" => c17::main(args),
         "gensizes" => {
             print_gen_sizes();
